@@ -21,15 +21,15 @@ CLAIMS = {
  "C04": ("Theorems: tet_triangle_outward (decide over all masks), search_bracket / search_finds_zero (edge search brackets a zero to L/50625 by the intermediate value theorem, constants regenerated from source), vertex_in_region (convexity), winding_partial (combinatorial part). Oracle on real meshes: winding number by solid angle at points with |f| > k*min_feature, vertices inside the region and within k' * min_feature of the level set, all three algorithms, with and without VolTree.",
          "The geometric winding-number and distance clauses are oracle-only (float geometry); DC vertex placement is not derived.",
          "Lean 4 proof (IVT bracket, table orientation lemma) + geometric oracle on rendered meshes"),
- "C05": ("Theorems push_sound, push_wf, nested_push_sound, push_sound_on, pointKeep_sound, getBase_sound over the model of Tape::push/getBase for every tape, keep function and environment. Tie: every tape the real evaluators produce in the run is re-derived by the model from the real slot values (clause-by-clause equality); WF and keep-soundness hypotheses are checked on the real data; exact tapes are re-evaluated at Float32. Oracle: bit-identity of specialised vs full evaluation.",
-         "Not modelled: oracle contexts in push (C16), float kernels (bit-identity observed only).",
-         "Lean 4 proof (invariant of the two loops of Tape::push) + replay of real tapes through the model"),
+ "C05": ("Theorems push_sound, push_wf, nested_push_sound, push_sound_on, pointKeep_sound, intervalKeep_sound, interval_push_sound (interval evaluation + push agrees with the full tape at EVERY point of the box, joining C02's tape enclosure with the push invariant; keep function mirrors the repaired IntervalEvaluator::push), getBase_sound over the model of Tape::push/getBase for every tape, keep function and environment. Tie: every tape the real evaluators produce in the run is re-derived by the model from the real slot values, bounds and maybe-NaN flags (clause-by-clause equality); WF and keep-soundness hypotheses are checked on the real data; exact tapes are re-evaluated at Float32. Oracle: bit-identity of specialised vs full evaluation.",
+         "Not modelled: oracle contexts in push (C16), float kernels (bit-identity observed only); Boost's primitive contracts are hypotheses of interval_push_sound.",
+         "Lean 4 proof (invariant of the two loops of Tape::push; enclosure => keep soundness) + replay of real tapes through the model"),
  "C06": ("Theorems over the reals (Mathlib): kernel_hasDerivAt for every smooth opcode kernel of eval_deriv_array.cpp under its domain condition, tape_gradient / spatial_gradient by tape induction, jacobian_packing_bijection, jacobian_seed_unit, jacobian_gradient, constVar_kernel, feature_is_branch_gradient (for every compatibility oracle), isInside_sign. Tie: every derivative kernel of every query recomputed from the real operand values; Jacobian packing and feature walk replayed. Oracle: binary64 forward-mode reference at smooth points, batch vs single, features within the brute-force branch-gradient set.",
          "Float rounding not modelled; Feature::check geometry is an abstract oracle in the theorems.",
          "Lean 4 proof (HasDerivAt per kernel + tape induction) + per-clause kernel correspondence"),
- "C07": ("Theorems over any field with a lawful interpretation (all non-arithmetic opcodes uninterpreted): unary_sound, binary_sound (every construction-time rewrite incl. the order of the else-if chain), remap_is_composition, apply_is_lexical_substitution, flatten_sound. Tie: programs of tree-building calls run on the real API and on the model (Tree::unary/binary/remap/apply/flatten and a big-step model of optimized_helper); results compared after AC-canonicalisation; the optimiser tie alarms on the mismatch rate (model exact on ~99.5% of programs). Oracle: real values vs a reference of the unrewritten expression within a single-precision error bound; eq => equal functions; optimized idempotent.",
-         "Soundness of the optimiser model and of the canonicaliser is not yet proved (theorems cover construction rules, remap, apply, flatten); pointer identity is modelled by structural equality.",
-         "Lean 4 proof (rewrite soundness over an arbitrary field) + program-level correspondence up to AC-canonical form"),
+ "C07": ("Theorems over any field with a lawful interpretation (all non-arithmetic opcodes uninterpreted): unary_sound, binary_sound (every construction-time rewrite incl. the order of the else-if chain), remap_is_composition, apply_is_lexical_substitution, flatten_sound, optimize_sound / optimized_sound (big-step model of optimized_helper's four stacks: affine collapse, commutative flattening, canonical map; for every comparison used for sorting), collapse_sound, eq_sound (eq => same denotation). Tie: programs of tree-building calls run on the real API and on the model (Tree::unary/binary/remap/apply/flatten/optimized); results compared after AC-canonicalisation; the optimiser tie alarms on the mismatch rate (model exact on ~99.5% of programs). Oracle: real values vs a reference of the unrewritten expression within a single-precision error bound; eq => equal functions; optimized idempotent.",
+         "Soundness of the AC-canonicaliser used by the tie is not proved; pointer identity is modelled by structural equality; optimize idempotence is observed, not proved.",
+         "Lean 4 proof (rewrite and optimiser soundness over an arbitrary field) + program-level correspondence up to AC-canonical form"),
  "C08": ("Theorems: opcodes_pinned / enum_is_table / numbering_injective / codes_below_reserved / args_pinned ... by `decide` over the table regenerated from opcode.hpp/.cpp; string_roundtrip, word_roundtrip, tree_roundtrip, archive_roundtrip_partial, roundtrip_same_denotation by induction over a byte-level model of serializer/deserializer; the failing case (named variable) is proved to fail with a concrete witness. Tie: real serialize bytes = model bytes, real deserialize = model deserialize, malformed streams rejected alike. Oracle: round trip through the real code compared bit-exactly at sample points, names, docs, bindings.",
          "Load-time constant folding is an uninterpreted parameter; remap/apply trees are correspondence-only.",
          "Lean 4 proof (byte-level round trip by induction; table pinned by decide over regenerated data) + byte-exact correspondence"),
@@ -60,11 +60,17 @@ CLAIMS = {
  "C20": ("Theorems: total_formula, ticks_eq_total (every octree shape, every interleaving), walk_ticks, reset_ticks (exact condition) and reset_ticks_defect (decide), progress_monotone, finish_idempotent. Tie: tick events and octree shape from hooks replayed; announced totals and handler counters compared. Oracle: reported values in [0,1], monotone, every phase complete; life-cycle scenarios under a watchdog.",
          "Float32 rounding of the reported fraction checked on samples only.",
          "Lean 4 proof (structural induction over octree shapes; state machine of the handler) + tick-trace replay"),
+ "C13": ("Theorems about the refcount machine (every operation = micro-steps of the C++: refcount++, explicit-stack destructor, node construction; tree-building calls with ANY admissible outcome): reachable_inv, rc_invariant (rc n = #handles + #parent edges), no_dangling, no_undefined_behaviour, api_preserves_args, leak_free, destructor_iterative / destructor_fuel_suffices (native stack O(1) in tree depth). Tie: after every operation of seeded random sequences over the Tree value type and the C API the live-node counter, every handle's target and refcount and every live node's refcount equal the model's prediction (hook events give allocations / deletions). Oracle: live nodes return to the baseline once every handle is deleted; 3e5..1e6-node chains / fans destroyed with a 256 kB native stack; ASan/LSan run of the same sequences.",
+         "Allocator and C++ temporary lifetime rules not modelled; ASan/LSan is a validator (exploration); TreeOracle nodes are exercised in C16.",
+         "Lean 4 proof (invariants of the refcount transition system) + op-by-op state correspondence with the live-node hook"),
+ "C14": ("Theorems about the atomic-step acceptor (one seq-cst counter per node + the delete protocol of ~Tree): unique_deleter (exactly one thread observes 1->0), deleter_is_observer, freed_untouched / no_use_after_free_conc (no event on a node after its delete, for every accepted interleaving), final_count, interleaving_confluent_partial, statics_all_classified (decide over the list of mutable statics regenerated from the sources). Tie (R): controlled-mode traces (cooperative scheduler at the refcount hooks, seeded) replayed event by event through cstep; free-mode and TSan runs (shared-DAG and cold-start families) as validators. Oracle: per-thread results equal a sequential run; live-node count restored.",
+         "Data-race freedom of the C++ rests on TSan exploration + the statics footprint audit, not on a proof; the dynamic cascade of child decrements is proved sequentially (C13) only; interleaving_confluent is partial.",
+         "Lean 4 proof (atomic-step refcount acceptor, every interleaving) + trace refinement under a seeded scheduler + statics audit regenerated from source"),
+ "C16": ("Theorems over an abstract scalar: transformed_value / oracle_tree_value (TransformedOracle = wrapped expression composed with the coordinate maps), remap_chain, transformed_interval_sound, transformed_interval_sound_flagged (maybe-NaN coordinate ranges, the repaired evalInterval) with transformed_interval_old_unsound as witness against the previous code, transformed_interval_eq_plain, transformed_gradient / oracle_tree_gradient (chain rule as a ring identity), transformed_features, context_balanced / balanced_spec / context_forwarding (bind-push-unbind protocol), push_preserves_oracle_value, transformed_push_value. Tie: wrapped-oracle trees vs the plain remapped expression on generated inputs (values, every batch slot, intervals, gradients, Jacobian products, context traces replayed through the protocol model, nested pushes, meshes). Oracle: long-double reference with running error bound.",
+         "User oracles' own answers are hypotheses; at exact min/max ties only non-emptiness of the feature list is judged; comparisons at points where a coordinate map or sub-expression is undefined are skipped and counted; per-case time budget (skipped cases counted).",
+         "Lean 4 proof (composition / chain-rule identities, flagged enclosure, context protocol) + oracle-vs-plain differential"),
 }
 PENDING = {
- "C13": "check under construction in this session (refcount machine model + live-node hook); not yet registered",
- "C14": "check under construction in this session (atomic-step model, statics audit, TSan cold-start scenarios); not yet registered",
- "C16": "check under construction in this session (oracle wrapper harness + context-stack model); not yet registered",
 }
 
 
